@@ -372,6 +372,31 @@ def weave_fn(item_text, opts, spec, loops_spec, hints, log, what):
     return out
 
 
+def _drop_body(item_text, what):
+    """replace the body of a fn item by `{ unimplemented!() }` (used for assumed contracts)"""
+    toks = tokenize(item_text)
+    kw = None
+    for i, t in enumerate(toks):
+        if t.kind == "ident" and t.text == "fn":
+            kw = i
+            break
+    if kw is None:
+        raise UnitError("%s: no fn keyword" % what)
+    k = kw + 1
+    while k < len(toks):
+        tk = toks[k]
+        if tk.kind == "punct":
+            if tk.text in "([":
+                k = match_close(toks, k)
+            elif tk.text == "{":
+                c = match_close(toks, k)
+                return item_text[:tk.start] + "{ unimplemented!() }" + item_text[toks[c].start + 1:]
+            elif tk.text == ";":
+                break
+        k += 1
+    raise UnitError("%s: no body to drop" % what)
+
+
 def _apply_vis(text, vis):
     if vis == "keep":
         return text
@@ -489,9 +514,20 @@ def assemble(unit_path, canary=None):
     exp = []
     for ln in lines:
         if ln.strip().startswith("//@include"):
-            inc = os.path.join(os.path.dirname(os.path.dirname(os.path.abspath(__file__))), "units", ln.strip()[len("//@include"):].strip())
+            inc_args = ln.strip()[len("//@include"):].split()
+            inc = os.path.join(os.path.dirname(os.path.dirname(os.path.abspath(__file__))), "units", inc_args[0])
             with open(inc, encoding="utf-8") as f:
-                exp.extend(f.read().split("\n"))
+                inc_lines = f.read().split("\n")
+            if "assumed" in inc_args[1:]:
+                # `//@include <file> assumed`: the contracts of the file are ASSUMED here (bodies dropped); the unit that
+                # includes the same file without `assumed` proves the very same contract text on the real bodies
+                marked = []
+                for il in inc_lines:
+                    marked.append(il)
+                    if il.strip().startswith("//@item"):
+                        marked.append("//@opt body=assumed")
+                inc_lines = marked
+            exp.extend(inc_lines)
         else:
             exp.append(ln)
     lines = exp
@@ -618,7 +654,14 @@ def assemble(unit_path, canary=None):
             n_occ = len(rx.findall(text))
             text = rx.sub(lambda m: b, text)
             log.rewrites.append({"item": what, "rule": rule, "from": a, "to": b, "occurrences": n_occ})
-        if item.kind == "fn":
+        if item.kind == "fn" and opts.get("body") == "assumed":
+            text = _apply_vis(text, opts.get("vis", "norm"))
+            text = _drop_body(text, what)
+            text = weave_fn(text, opts, spec, {}, [], log, what)
+            text = ("// ASSUMED-CONTRACT TRUSTED here: %s (this contract text is proved on the real body by the unit that includes it without `assumed`)\n"
+                    "#[verifier::external_body]\n" % what) + text
+            log.rewrites.append({"item": what, "rule": "ASSUMED", "from": "body", "to": "unimplemented!()", "occurrences": 1})
+        elif item.kind == "fn":
             text = _apply_vis(text, opts.get("vis", "norm"))
             text = weave_fn(text, opts, spec, loops_spec, hints, log, what)
             if opts.get("mode"):
